@@ -67,6 +67,10 @@ class ListWalk:
                 return int(bool(self.ev(c[0], depth + 1)) and bool(self.ev(c[1], depth + 1)))
             if op == "||":
                 return int(bool(self.ev(c[0], depth + 1)) or bool(self.ev(c[1], depth + 1)))
+        if k == "call" and n.get("inl_ret_var"):
+            if n["inl_ret_var"] in self.env:
+                return self.env[n["inl_ret_var"]]       # value returned by a virtually inlined helper
+            raise Stuck("inlined helper did not return on this path")
         if k == "call":
             leaf = n.get("callee", "").split("::")[-1]
             if leaf in self.links and c:                 # accessor returning the link cell: p->next_free()
